@@ -453,6 +453,8 @@ fn codelens_instance(r: usize) {
     } else {
         assert!(rc == ReturnCode::Ok && matches!(state.mode, Mode::CodeLens));
         assert!(state.have == have);
+        // suspension keeps exactly the bits of the incomplete item (nothing of it is consumed), so the call can resume
+        assert!(state.bit_reader.bits_in_buffer() as u32 == NBITS - pos, "an incomplete item must stay in the bit register");
     }
     if !err {
         let j: usize = kani::any();
